@@ -167,13 +167,30 @@ def nativeFri (s : Shape) : List Ev :=
     ++ powEv s.queryPowBits Name.queryPow
     ++ (List.range s.queries).map Ev.sampleIndex
 
-/-- circuit `get_challenges_circuit` followed by the index sampling of `verify_circuit`. -/
-def circuitFri (s : Shape) : List Ev :=
+/-- `get_challenges_circuit` of `impl RecursivePcs for TwoAdicFriPcs` (pcs/fri/targets.rs): α, then per
+commit-phase commitment observe / `check_pow_witness(params.commit_pow_bits, ·)` / β, the final
+polynomial, the log-arity schedule, `check_pow_witness(params.query_pow_bits, ·)`.
+`check_pow_witness` with 0 bits leaves the challenger untouched (`powEv`). -/
+def getChallengesPlain (s : Shape) : List Ev :=
   let commitPhase := (List.range s.friRounds).flatMap (fun r =>
     [Ev.obs (Name.friCommit r)] ++ powEv s.commitPowBits (Name.commitPow r) ++ [Ev.sample (Chal.beta r)])
   let final := (List.range s.finalPolyLen).map (fun k => Ev.obs (Name.finalPoly k))
   let arities := (List.range s.friRounds).map (fun _ => Ev.obsConst Enc.base 0)
-  ([Ev.sample Chal.friAlpha] ++ commitPhase ++ final ++ arities ++ powEv s.queryPowBits Name.queryPow)
+  [Ev.sample Chal.friAlpha] ++ commitPhase ++ final ++ arities ++ powEv s.queryPowBits Name.queryPow
+
+/-- `get_challenges_circuit` of `impl RecursivePcs for HidingFriPcs` — a second copy of the routine in the
+source (it reads the inner FRI proof of the hiding opening proof); transcribed separately, with the bit
+count each of its two `check_pow_witness` calls is given. -/
+def getChallengesHiding (s : Shape) : List Ev :=
+  let commitPhase := (List.range s.friRounds).flatMap (fun r =>
+    [Ev.obs (Name.friCommit r)] ++ powEv s.commitPowBits (Name.commitPow r) ++ [Ev.sample (Chal.beta r)])
+  let final := (List.range s.finalPolyLen).map (fun k => Ev.obs (Name.finalPoly k))
+  let arities := (List.range s.friRounds).map (fun _ => Ev.obsConst Enc.base 0)
+  [Ev.sample Chal.friAlpha] ++ commitPhase ++ final ++ arities ++ powEv s.queryPowBits Name.queryPow
+
+/-- circuit `get_challenges_circuit` (of the PCS in use) followed by the index sampling of `verify_circuit`. -/
+def circuitFri (s : Shape) : List Ev :=
+  (if s.zk then getChallengesHiding s else getChallengesPlain s)
     ++ (List.range s.queries).map Ev.sampleIndex
 
 def friElems (s : Shape) : List Name :=
